@@ -389,14 +389,20 @@ class SpecialValueCanonicalization(ComparisonExpressionTransformer):
     in constant values.
     """
     def transform_comparison(self, ast):
+        # A constant may only be rewritten where the operator treats it as
+        # the kind of value being canonicalized: a regular expression is not
+        # a registry key (lower-casing turns \D into \d), and an address
+        # compared by order or by a LIKE/MATCHES pattern is just text.
         if ast.lhs.object_type_name == "windows-registry-key":
-            windows_reg_key(ast)
+            if ast.operator != "MATCHES":
+                windows_reg_key(ast)
 
-        elif ast.lhs.object_type_name == "ipv4-addr":
-            ipv4_addr(ast)
+        elif ast.operator in ("=", "!=", "ISSUBSET", "ISSUPERSET"):
+            if ast.lhs.object_type_name == "ipv4-addr":
+                ipv4_addr(ast)
 
-        elif ast.lhs.object_type_name == "ipv6-addr":
-            ipv6_addr(ast)
+            elif ast.lhs.object_type_name == "ipv6-addr":
+                ipv6_addr(ast)
 
         # Hard-code False here since this particular canonicalization is never
         # worth doing more than once.  I think it's okay to pretend nothing has
